@@ -46,6 +46,7 @@ thread_local! {
 }
 
 static HOOK_CALLS: AtomicUsize = AtomicUsize::new(0);
+static HOOK_GEN: AtomicUsize = AtomicUsize::new(0);
 
 fn do_panic(p: u64) -> ! {
     match p % 3 {
@@ -217,8 +218,13 @@ pub fn run(case: &Value) -> Value {
     // counting process panic hook (C10)
     HOOK_CALLS.store(0, Ordering::SeqCst);
     let prev = panic::take_hook();
-    panic::set_hook(Box::new(|_| {
-        HOOK_CALLS.fetch_add(1, Ordering::SeqCst);
+    // the hook installed for THIS case is told apart from the hooks of earlier cases of the same process: only a call of
+    // the current generation counts (a runner that puts back a hook it remembered from an earlier run is noticed)
+    let generation = HOOK_GEN.fetch_add(1, Ordering::SeqCst) + 1;
+    panic::set_hook(Box::new(move |_| {
+        if HOOK_GEN.load(Ordering::SeqCst) == generation {
+            HOOK_CALLS.fetch_add(1, Ordering::SeqCst);
+        }
     }));
 
     fn before<'a>(
